@@ -527,25 +527,22 @@ async fn client_handler<State>(
             Ok(request) if request.method == Method::Options => {
                 let handler = get_handler(request, &subapps, &default_subapp);
 
-                match handler {
+                let mut response = match handler {
                     Some(handler) => {
-                        let mut response = Response::empty(StatusCode::NoContent)
-                            .with_header(HeaderType::Date, DateTime::now().to_string())
-                            .with_header(HeaderType::Server, "Humphrey")
-                            .with_header(
-                                HeaderType::Connection,
-                                match keep_alive {
-                                    true => "Keep-Alive",
-                                    false => "Close",
-                                },
-                            );
+                        let mut response = Response::empty(StatusCode::NoContent);
 
                         handler.cors.set_headers(&mut response.headers);
 
                         response
                     }
                     None => error_handler(StatusCode::NotFound),
-                }
+                };
+
+                // A 204 response must not carry a `Content-Length` header
+                let has_body = response.status_code != StatusCode::NoContent;
+                add_required_headers(&mut response, request, has_body);
+
+                response
             }
             Ok(request) => {
                 let handler = get_handler(request, &subapps, &default_subapp);
@@ -562,45 +559,7 @@ async fn client_handler<State>(
                     None => error_handler(StatusCode::NotFound),
                 };
 
-                // Automatically generate required headers
-                match response.headers.get_mut(HeaderType::Connection) {
-                    Some(_) => (),
-                    None => {
-                        if let Some(connection) = &request.headers.get(&HeaderType::Connection) {
-                            response.headers.add(HeaderType::Connection, connection);
-                        } else {
-                            response.headers.add(HeaderType::Connection, "Close");
-                        }
-                    }
-                }
-
-                match response.headers.get_mut(HeaderType::Server) {
-                    Some(_) => (),
-                    None => {
-                        response.headers.add(HeaderType::Server, "Humphrey");
-                    }
-                }
-
-                match response.headers.get_mut(HeaderType::Date) {
-                    Some(_) => (),
-                    None => {
-                        response
-                            .headers
-                            .add(HeaderType::Date, DateTime::now().to_string());
-                    }
-                }
-
-                match response.headers.get_mut(HeaderType::ContentLength) {
-                    Some(_) => (),
-                    None => {
-                        response
-                            .headers
-                            .add(HeaderType::ContentLength, response.body.len().to_string());
-                    }
-                }
-
-                // Set HTTP version
-                response.version = request.version.clone();
+                add_required_headers(&mut response, request, true);
 
                 response
             }
@@ -667,6 +626,51 @@ async fn client_handler<State>(
     }
 
     monitor.send(Event::new(EventType::ConnectionClosed).with_peer(addr));
+}
+
+/// Automatically generates the headers required on every response to a parsed request, unless
+///   the handler set them itself, and echoes the HTTP version of the request.
+fn add_required_headers(response: &mut Response, request: &Request, content_length: bool) {
+    match response.headers.get_mut(HeaderType::Connection) {
+        Some(_) => (),
+        None => {
+            if let Some(connection) = &request.headers.get(&HeaderType::Connection) {
+                response.headers.add(HeaderType::Connection, connection);
+            } else {
+                response.headers.add(HeaderType::Connection, "Close");
+            }
+        }
+    }
+
+    match response.headers.get_mut(HeaderType::Server) {
+        Some(_) => (),
+        None => {
+            response.headers.add(HeaderType::Server, "Humphrey");
+        }
+    }
+
+    match response.headers.get_mut(HeaderType::Date) {
+        Some(_) => (),
+        None => {
+            response
+                .headers
+                .add(HeaderType::Date, DateTime::now().to_string());
+        }
+    }
+
+    if content_length {
+        match response.headers.get_mut(HeaderType::ContentLength) {
+            Some(_) => (),
+            None => {
+                response
+                    .headers
+                    .add(HeaderType::ContentLength, response.body.len().to_string());
+            }
+        }
+    }
+
+    // Set HTTP version
+    response.version = request.version.clone();
 }
 
 /// Gets the correct handler for the given request.
